@@ -294,7 +294,36 @@ def oov():
     return st.sampled_from(OOV)
 
 
+_WITNESS = {}
+
+
+def witness_pool(metal):
+    """molecules built from the patterns of the shipped scheme files themselves (vlib.witness): every correction
+    descriptor and centre pattern of the scheme gets a candidate molecule"""
+    if metal not in _WITNESS:
+        import os
+        from vlib import schemeref, shipped, witness
+        libs = ['BensonGA'] if metal is None else (['XieGA2022'] if metal == 'Ru' else ['GRWSurface2018', 'SalciccioliGA2012'])
+        out = []
+        for L in libs:
+            ref = schemeref.SchemeRef(os.path.join(shipped.data_dir(), L, 'scheme.yaml'))
+            for frag in [f for _, _, f in ref.patterns] + [f for _, f in ref.desc]:
+                for smi in witness.witnesses(frag, metal):
+                    if smi not in out and Chem.MolFromSmiles(smi) is not None:
+                        out.append(smi)
+        _WITNESS[metal] = out
+    return _WITNESS[metal]
+
+
+def witness(metal='Pt'):
+    return st.sampled_from(witness_pool(None) + (witness_pool(metal) if metal else []))
+
+
 def family(name, metal='Pt', max_heavy=12):
+    if name == 'witness':
+        return witness(metal)
+    if name == 'witness-gas':
+        return witness(None)
     return {
         'gas': gas(max_heavy),
         'alkene': alkene(),
